@@ -2,6 +2,7 @@ import QuinnModel.Conn.Amplification
 import QuinnModel.Conn.Lifecycle
 import QuinnModel.Conn.Timers
 import QuinnModel.Conn.Path
+import QuinnModel.Conn.LossTimer
 import QuinnModel.Util
 /- Trace-validation front ends for the Connection-level skeleton models (stateless: each request
    carries the observed before-state; the model prints the after-state it predicts). -/
@@ -145,6 +146,19 @@ def pathm : List String → String
     match now.toNat?, pathParse st with
     | some now, some s => pathShow (PathM.step s (.timeout now))
     | _, _ => "bad-op"
+  | _ => "bad-op"
+
+/-- `lossd <closed> <handshaking> <ampBlocked> <ackElicitingInFlight> <peerCompleted> <hif0> <la0> <hif1> <la1> <hif2> <la2>`
+    (flags 0/1; `la` = time_of_last_ack_eliciting_packet is set): prints whether the model requires the
+    loss-detection timer to be armed (no loss_time pending): `1` = must be armed -/
+def lossd : List String → String
+  | [c, h, a, ae, pc, h0, l0, h1, l1, h2, l2] =>
+    match [c, h, a, ae, pc, h0, l0, h1, l1, h2, l2].mapM String.toNat? with
+    | some [c, h, a, ae, pc, h0, l0, h1, l1, h2, l2] =>
+      let sp := fun (hf la : Nat) => (⟨hf == 1, if la == 1 then some 0 else none, none⟩ : LossTimer.SpaceL)
+      let s : LossTimer.S := ⟨c == 1, h == 1, a == 1, ae, pc == 1, 0, 1, 0, false, sp h0 l0, sp h1 l1, sp h2 l2⟩
+      connB01 (LossTimer.setTimer s 0 none).isSome
+    | _ => "bad-op"
   | _ => "bad-op"
 
 end QM.Drv
